@@ -253,6 +253,12 @@ def check_message(mw: MsgWorld, mbox: str, uid: int, raw: bytes, spec: dict | No
             except Exception:
                 continue
             env = d.get("ENVELOPE") or env
+    # header field names the client wrote as strings come back in the item's label: the label must stay a well-formed
+    # `section` (header-fld-name = astring), whatever octets the names hold (syntax is checked by cmd())
+    for names in ('"a\\"b"', '"a)b" "c]d"', '"sp ace" SUBJECT', '{3}\r\na\rb', '"back\\\\slash"'):
+        r2, _ = mw.cmd(f"UID FETCH {uid} (BODY.PEEK[HEADER.FIELDS ({names})] BODY.PEEK[HEADER.FIELDS.NOT ({names})])".encode("latin-1"), replay)
+        if r2 is not None and r2.typ != "OK":
+            mw.fail("C07.structure-fetch-refused", dict(det, names=names[:12]), replay, "OK", r2.raw[:200])
     if r is not None and r.typ != "OK" and b"does not contain subsection" not in r.raw:
         mw.fail("C07.structure-fetch-refused", det, replay, "OK", r.raw[:200])
     hfields, body0 = split_headers(raw)
@@ -427,8 +433,11 @@ def work_names(_unit):
         from .. import msgs
 
         rp = {"driver": "names", "feats": ["keywords"]}
-        mw.cmd(b"APPEND plain () " + imap_literal(msgs.make("k1")), rp)
-        mw.cmd("SELECT plain", rp)
+        mw.cmd("CREATE plain", rp)
+        for c in (b"APPEND plain () " + imap_literal(msgs.make("k1")), "SELECT plain"):
+            r, _ = mw.cmd(c, rp)
+            if r is None or r.typ != "OK":  # the parts below would be vacuous
+                raise AssertionError(f"set-up command refused: {c!r} -> {r.raw if r else None!r}")
         for kw in KEYWORDS:
             rp = {"driver": "names", "feats": ["kw:" + kw]}
             mw.cmd(f"STORE 1 +FLAGS ({kw})".encode("latin-1"), rp)
@@ -445,6 +454,17 @@ def work_names(_unit):
                 n += 1
             mw.cmd(b"SEARCH HEADER " + imap_literal(arg) + b" x", rp)
             mw.cmd(b"BOGUS" + arg[:10].replace(b"\r\n", b""), rp)
+        # response codes and untagged data of commands that find nothing to do
+        rp = {"driver": "names", "feats": ["empty-results"]}
+        for c in ("CREATE er", b"APPEND er () " + imap_literal(msgs.make("k2")), "SELECT er"):
+            r, _ = mw.cmd(c, rp)
+            if r is None or r.typ != "OK":  # the part below would be vacuous
+                raise AssertionError(f"set-up command refused: {c!r} -> {r.raw if r else None!r}")
+        for c in ("UID COPY 999 er", "UID MOVE 999 er", "UID COPY 999:1000 INBOX", "UID FETCH 999 (FLAGS)", "UID STORE 999 +FLAGS (x)", "UID SEARCH UID 999",
+                  "SEARCH KEYWORD nosuchkw", "UID EXPUNGE 999", "COPY 1 er", "UID COPY 1,999 er", 'LIST "" "nosuch%"', 'LIST (SUBSCRIBED) "" "nosuch*" RETURN (CHILDREN)',
+                  "STATUS er (MESSAGES RECENT UIDNEXT UIDVALIDITY UNSEEN)", "EXAMINE er", "CLOSE", "STATUS er (UNSEEN)"):
+            mw.cmd(c, rp)
+            n += 1
     finally:
         mw.close()
     return mw.fails, n
